@@ -265,12 +265,12 @@ pub fn run(ctx: &Ctx, rep: &mut Report) {
     rep.assume("absence of 32-bit overflow is observed through the checked profile (overflow-checks = on: any wrapping add/sub/mul panics) and through agreement with the exact product in the plain profile");
     rep.assume("'every vector in range' is sampled plus structured; for ML-DSA-44 the aligned-residue construction does not reach 2^31, so for that set the claim rests on the bound 256*(q-1) < 2^31 established by the reduction at the inverse-NTT copy-in");
     basis(rep);
-    run_generated(ctx, rep, "challenge_products", ctx.n(30_000, 1_000_000), prod_strategy, check_prod);
+    run_generated(ctx, rep, "challenge_products", ctx.n(300_000, 5_000_000), prod_strategy, check_prod);
     run_generated(
         ctx,
         rep,
         "matrix_vector",
-        ctx.n(3_000, 100_000),
+        ctx.n(20_000, 400_000),
         || (0u8..3, 0u8..4, gen::seed32(), gen::pattern(), 0u8..2).prop_map(|(set, matrix, rho, vec, range)| MatCase { set, matrix, rho, vec, range }),
         check_mat,
     );
@@ -278,7 +278,7 @@ pub fn run(ctx: &Ctx, rep: &mut Report) {
         ctx,
         rep,
         "key_pipelines",
-        ctx.n(1_500, 40_000),
+        ctx.n(6_000, 100_000),
         || (0u8..3, gen::seed32(), gen::pattern(), gen::pattern()).prop_map(|(set, rho, s1, s2)| KeyCase { set, rho, s1, s2 }),
         check_key,
     );
